@@ -64,8 +64,20 @@ def rule_N(ctx):
     n_acc = 0
     idx_seen = None
     for o in outs:
-        acc = [e for e in o.state.events if e.kind == 'store' and e.aug == 'Add']
-        nrm = [e for e in o.state.events if e.kind == 'assign' and e.aug == 'Add']
+        acc = []
+        nrm = []
+        for e in o.state.events:
+            if e.kind == 'store' and vr(e.index) == iv:
+                if e.aug == 'Add':
+                    acc.append((e, e.value))
+                elif e.aug is None and isinstance(e.value, Rat):
+                    prev = Rat.atom('%s[%s]' % (e.name, iv))
+                    if prev.single_atom() in e.value.atoms():
+                        acc.append((e, e.value - prev))
+            if e.kind == 'assign' and e.name in assigned and isinstance(e.value, Rat) and (e.name + '@') in e.value.atoms():
+                inc = e.value - Rat.atom(e.name + '@')
+                if not w.rel.is_zero(inc):
+                    nrm.append((e, inc))
         pathtxt = [repr(c) for c, _ in o.state.conds]
         if not acc and not nrm:
             continue
@@ -76,17 +88,16 @@ def rule_N(ctx):
                            'why': 'a sample that is skipped (outside the track or NaN) must not contribute its weight to the normaliser, and vice versa'},
                           node=li, key='coupdate:%s:%s' % (bool(acc), bool(nrm)))
             continue
-        a, n = acc[0], nrm[0]
+        (a, ainc), (n, winc) = acc[0], nrm[0]
         nname = n.name
-        winc = n.value - Rat.atom(nname + '@')
         # value read
         reads = [e for e in o.state.events if e.kind == 'call' and e.name == 'getObsAnalyticalFeature']
         if len(reads) != 1:
             raise shape_error('Filter.execute: expected one sample read per path', f.loc(li))
         val = Rat.atom(reads[0].value)
-        ctx.check(isinstance(a.value, Rat) and w.rel.is_zero(a.value - val * winc), 'C15.N', f,
+        ctx.check(isinstance(ainc, Rat) and w.rel.is_zero(ainc - val * winc), 'C15.N', f,
                   'numerator += sample * w and normaliser += w with the same weight w',
-                  witness={'numerator increment': vr(a.value), 'normaliser increment': vr(winc), 'sample': vr(val)}, node=a.node, key='same-weight')
+                  witness={'numerator increment': vr(ainc), 'normaliser increment': vr(winc), 'sample': vr(val)}, node=a.node, key='same-weight')
         ctx.check(vr(winc) == '%s[%s]' % (vr(stj.env.get(kern, Rat.atom(kern))), jv) or vr(winc).endswith('[%s]' % jv), 'C15.N', f,
                   'the weight is the kernel value of the window position j', witness={'weight': vr(winc)}, node=n.node, key='weight-j')
         ctx.check(vr(a.index) == iv and vr(reads[0].args[0]) == afin, 'C15.N', f,
